@@ -4,9 +4,10 @@ Helper lemmas for C05 (BoC parser model `Model/BocParse.lean` against the spec e
 import TonVerif.Model.BocParse
 import TonVerif.Spec.BocEncode
 import TonVerif.Proofs.CrcFlip
+import TonVerif.Proofs.CellSpec
 
 namespace TonVerif.Proofs.BocParse
-open TonVerif TonVerif.Model TonVerif.Model.BocParse
+open TonVerif TonVerif.Model TonVerif.Model.BocParse TonVerif.Spec.BocEncode
 
 /-! ### generic -/
 
@@ -458,5 +459,414 @@ theorem flipMask_props (k : Nat) : 0 < 128 >>> (k % 8) ∧ 128 >>> (k % 8) < 256
     ((128 >>> (k % 8)).testBit 6 = false ∨ 128 >>> (k % 8) = 64) := by
   have : k % 8 = 0 ∨ k % 8 = 1 ∨ k % 8 = 2 ∨ k % 8 = 3 ∨ k % 8 = 4 ∨ k % 8 = 5 ∨ k % 8 = 6 ∨ k % 8 = 7 := by omega
   rcases this with h | h | h | h | h | h | h | h <;> rw [h] <;> decide
+
+/-! ### accepts: second loop = denotation -/
+
+/-- the record a listing entry must be read back as. -/
+def raw (c : SCell) : RawCell := { bits := c.bits, refs := c.refs, type := c.kind }
+
+theorem infos_eq_mapM (H : Bytes → Bytes) : ∀ ts : List Cell, Cell.infos H ts = ts.mapM (Cell.info H) := by
+  intro ts
+  induction ts with
+  | nil => simp [Cell.infos]
+  | cons c cs ih =>
+    rw [Cell.infos, List.mapM_cons, ih]
+
+theorem mapM_infos_of_pairs (H : Bytes → Bytes) : ∀ (ps : List CellV), (∀ p ∈ ps, Cell.info H p.1 = some p.2) →
+    (ps.map (·.1)).mapM (Cell.info H) = some (ps.map (·.2)) := by
+  intro ps
+  induction ps with
+  | nil => intro _; simp
+  | cons p ps ih =>
+    intro h
+    rw [List.map_cons, List.mapM_cons, h p List.mem_cons_self, ih (fun q hq => h q (List.mem_cons_of_mem _ hq))]
+    rfl
+
+theorem lookup_lift {α β : Type} (f : α → β) (out : List α) (base : Nat) : ∀ (refs : List Nat) (kids : List β),
+    refs.mapM (fun r => if r ≤ base then none else (out.map f)[r - base - 1]?) = some kids →
+    ∃ ks, refs.mapM (fun r => if r < base then none else if r = base then none else out[r - base - 1]?) = some ks ∧
+      ks.map f = kids ∧ ∀ p ∈ ks, p ∈ out := by
+  intro refs
+  induction refs with
+  | nil => intro kids h; simp at h; subst h; exact ⟨[], by simp⟩
+  | cons r rs ih =>
+    intro kids h
+    rw [List.mapM_cons] at h
+    by_cases hr : r ≤ base
+    · simp [hr] at h
+    · simp only [hr, if_false] at h
+      have hg : (out.map f)[r - base - 1]? = (out[r - base - 1]?).map f := List.getElem?_map ..
+      rw [hg] at h
+      cases ho : out[r - base - 1]? with
+      | none => simp [ho] at h
+      | some p =>
+        cases hm : rs.mapM (fun r => if r ≤ base then none else (out.map f)[r - base - 1]?) with
+        | none => rw [ho, hm] at h; simp at h
+        | some kids' =>
+          rw [ho, hm] at h
+          simp only [Option.map_some, Option.bind_eq_bind, Option.bind_some, Option.pure_def, Option.some.injEq] at h
+          obtain ⟨ks, h1, h2, h3⟩ := ih kids' hm
+          refine ⟨p :: ks, ?_, ?_, ?_⟩
+          · rw [List.mapM_cons]
+            have a1 : ¬ r < base := by omega
+            have a2 : ¬ r = base := by omega
+            simp only [a1, a2, if_false, ho, h1]
+            rfl
+          · rw [← h, List.map_cons, h2]
+          · intro q hq
+            rcases List.mem_cons.mp hq with rfl | hq
+            · exact List.mem_of_getElem? ho
+            · exact h3 q hq
+
+/-- second loop = denotation: rebuilding the records of a listing bottom-up yields exactly the denoted trees, each
+paired with what the constructor computes for it, provided every denoted cell is constructible. -/
+theorem rebuild_denote (H : Bytes → Bytes) : ∀ (cs : List SCell) (base : Nat) (trees : List Cell),
+    denoteFrom cs base = some trees → (∀ t ∈ trees, (Cell.info H t).isSome) →
+    ∃ out, rebuildFrom (mkCell H) (cs.map raw) base = some out ∧ out.map (·.1) = trees ∧
+      ∀ p ∈ out, Cell.info H p.1 = some p.2 := by
+  intro cs
+  induction cs with
+  | nil => intro base trees h _; simp [denoteFrom] at h; subst h; exact ⟨[], by simp [rebuildFrom]⟩
+  | cons c cs ih =>
+    intro base trees h hcon
+    simp only [denoteFrom] at h
+    cases hl : denoteFrom cs (base + 1) with
+    | none => simp [hl] at h
+    | some lt =>
+      simp only [hl, Option.bind_some] at h
+      cases hk : c.refs.mapM (fun r => if r ≤ base then none else lt[r - base - 1]?) with
+      | none => simp [hk] at h
+      | some kids =>
+        simp only [hk, Option.map_some, Option.some.injEq] at h
+        subst h
+        obtain ⟨out', h1, h2, h3⟩ := ih (base + 1) lt hl (fun t ht => hcon t (List.mem_cons_of_mem _ ht))
+        rw [← h2] at hk
+        obtain ⟨ks, k1, k2, k3⟩ := lookup_lift (·.1) out' base c.refs kids hk
+        have hhead := hcon (Cell.mk c.kind c.bits kids) List.mem_cons_self
+        rw [Cell.info, infos_eq_mapM, ← k2, mapM_infos_of_pairs H ks (fun p hp => h3 p (k3 p hp))] at hhead
+        simp only [Option.bind_eq_bind, Option.bind_some] at hhead
+        obtain ⟨i, hi⟩ := Option.isSome_iff_exists.mp hhead
+        refine ⟨(Cell.mk c.kind c.bits (ks.map (·.1)), i) :: out', ?_, ?_, ?_⟩
+        · simp only [List.map_cons, rebuildFrom, h1, Option.bind_some, raw, k1, mkCell, hi, Option.map_some]
+        · simp [k2, h2]
+        · intro p hp
+          rcases List.mem_cons.mp hp with rfl | hp
+          · simp only [Cell.info, infos_eq_mapM, mapM_infos_of_pairs H ks (fun p hp => h3 p (k3 p hp))]
+            simpa using hi
+          · exact h3 p hp
+
+/-! ### numbers -/
+
+theorem natToBE_length : ∀ (w v : Nat), (natToBE w v).length = w := by
+  intro w; induction w with
+  | zero => intro v; rfl
+  | succ w ih => intro v; simp [natToBE, ih]
+
+theorem foldl_be_acc : ∀ (b : Bytes) (acc : Nat),
+    b.foldl (fun acc x => acc * 256 + x) acc = acc * 256 ^ b.length + b.foldl (fun acc x => acc * 256 + x) 0 := by
+  intro b; induction b with
+  | nil => intro acc; simp
+  | cons x xs ih =>
+    intro acc
+    simp only [List.foldl_cons, List.length_cons]
+    rw [ih (acc * 256 + x), ih (0 * 256 + x), Nat.pow_succ]
+    simp only [Nat.zero_mul, Nat.zero_add, Nat.add_mul]
+    rw [Nat.mul_assoc, Nat.mul_comm 256, Nat.add_assoc]
+
+theorem natOfBE_append (a b : Bytes) : natOfBE (a ++ b) = natOfBE a * 256 ^ b.length + natOfBE b := by
+  unfold natOfBE
+  rw [List.foldl_append, foldl_be_acc]
+
+theorem natOfBE_natToBE : ∀ (w v : Nat), v < 256 ^ w → natOfBE (natToBE w v) = v := by
+  intro w; induction w with
+  | zero => intro v h; simp at h; subst h; rfl
+  | succ w ih =>
+    intro v h
+    rw [natToBE, natOfBE_append, ih (v / 256) (by rw [Nat.pow_succ] at h; omega)]
+    simp [natOfBE]; omega
+
+theorem natToBE_wf : ∀ (w v : Nat), Bytes.WF (natToBE w v) := by
+  intro w; induction w with
+  | zero => intro v b hb; cases hb
+  | succ w ih =>
+    intro v b hb
+    rw [natToBE] at hb
+    rcases List.mem_append.mp hb with h | h
+    · exact ih _ b h
+    · simp at h; omega
+
+/-! ### bits and bytes -/
+
+theorem chunk8 (chunk : Bits) (h : chunk.length = 8) :
+    byteToBits (natOfBits chunk) = chunk ∧ natOfBits chunk < 256 := by
+  match chunk, h with
+  | [a, b, c, d, e, f, g, i], _ =>
+    cases a <;> cases b <;> cases c <;> cases d <;> cases e <;> cases f <;> cases g <;> cases i <;> decide
+
+theorem bitsToBytes_cons (b0 : Bool) (rest : Bits) :
+    bitsToBytes (b0 :: rest) =
+      natOfBits ((b0 :: rest).take 8 ++ List.replicate (8 - ((b0 :: rest).take 8).length) false)
+        :: bitsToBytes ((b0 :: rest).drop 8) := by
+  rw [bitsToBytes]
+
+theorem bitsToBytes_props (n : Nat) : ∀ (xs : Bits), xs.length = n →
+    (bitsToBytes xs).length = (xs.length + 7) / 8 ∧ Bytes.WF (bitsToBytes xs) ∧
+    (xs.length % 8 = 0 → bytesToBits (bitsToBytes xs) = xs) := by
+  induction n using Nat.strongRecOn with
+  | _ n ih =>
+    intro xs hn
+    cases xs with
+    | nil => simp [bitsToBytes, bytesToBits, Bytes.WF]
+    | cons b0 rest =>
+      rw [bitsToBytes_cons]
+      have hl : ((b0 :: rest).drop 8).length = (b0 :: rest).length - 8 := by simp
+      obtain ⟨i1, i2, i3⟩ := ih _ (by rw [← hn]; simp only [List.length_cons] at hl ⊢; omega) ((b0 :: rest).drop 8) rfl
+      have hc : ((b0 :: rest).take 8 ++ List.replicate (8 - ((b0 :: rest).take 8).length) false).length = 8 := by
+        simp only [List.length_append, List.length_replicate, List.length_take, List.length_cons]; omega
+      obtain ⟨c1, c2⟩ := chunk8 _ hc
+      refine ⟨?_, ?_, ?_⟩
+      · simp only [List.length_cons, i1, hl]; omega
+      · intro b hb
+        rcases List.mem_cons.mp hb with rfl | hb
+        · exact c2
+        · exact i2 b hb
+      · intro h8
+        have hge : 8 ≤ (b0 :: rest).length := by
+          simp only [List.length_cons] at h8 ⊢; omega
+        have ht : ((b0 :: rest).take 8).length = 8 := by rw [List.length_take]; omega
+        rw [ht] at c1
+        simp only [Nat.sub_self, List.replicate_zero, List.append_nil] at c1
+        rw [ht]
+        simp only [Nat.sub_self, List.replicate_zero, List.append_nil]
+        unfold bytesToBits at i3 ⊢
+        rw [List.flatMap_cons, c1, i3 (by rw [hl]; omega), List.take_append_drop]
+
+theorem bitsToBytes_length (xs : Bits) : (bitsToBytes xs).length = (xs.length + 7) / 8 :=
+  (bitsToBytes_props _ xs rfl).1
+theorem bitsToBytes_wf (xs : Bits) : Bytes.WF (bitsToBytes xs) := (bitsToBytes_props _ xs rfl).2.1
+theorem bytesToBits_bitsToBytes (xs : Bits) (h : xs.length % 8 = 0) : bytesToBits (bitsToBytes xs) = xs :=
+  (bitsToBytes_props _ xs rfl).2.2 h
+
+theorem padBits_length (bits : Bits) : (Spec.padBits bits).length = (bits.length + 7) / 8 * 8 := by
+  unfold Spec.padBits
+  split
+  · omega
+  · simp only [List.length_append, List.length_singleton, List.length_replicate]; omega
+
+theorem dataBytes_length (bits : Bits) : (Spec.dataBytes bits).length = (bits.length + 7) / 8 := by
+  unfold Spec.dataBytes
+  rw [bitsToBytes_length, padBits_length]; omega
+
+theorem stripTagRev_replicate : ∀ (p n : Nat) (r : Bits), p < n →
+    stripTagRev n (List.replicate p false ++ true :: r) = some r := by
+  intro p; induction p with
+  | zero => intro n r h; cases n with
+    | zero => omega
+    | succ n => simp [stripTagRev]
+  | succ p ih => intro n r h; cases n with
+    | zero => omega
+    | succ n => simp only [List.replicate_succ, List.cons_append, stripTagRev]; simp; exact ih n r (by omega)
+
+/-- reading the data bytes back and cutting the completion tag gives the original bits. -/
+theorem data_roundtrip (bits : Bits) :
+    (let bits0 := bytesToBits (Spec.dataBytes bits)
+     if (Spec.d2 bits.length % 2 == 1 && !bits0.isEmpty) then stripTag bits0 else bits0) = bits := by
+  have hp := padBits_length bits
+  have hb : bytesToBits (Spec.dataBytes bits) = Spec.padBits bits := by
+    unfold Spec.dataBytes; apply bytesToBits_bitsToBytes; rw [hp]; omega
+  simp only [hb]
+  unfold Spec.padBits Spec.d2
+  by_cases h8 : bits.length % 8 = 0
+  · have : (bits.length / 8 + (bits.length + 7) / 8) % 2 = 0 := by omega
+    simp [h8, this]
+  · have : (bits.length / 8 + (bits.length + 7) / 8) % 2 = 1 := by omega
+    simp only [h8, if_false, this, beq_self_eq_true, Bool.true_and]
+    have hne : (bits ++ [true] ++ List.replicate (7 - bits.length % 8) false).isEmpty = false := by
+      cases bits <;> simp
+    simp only [hne, Bool.not_false, if_true]
+    unfold stripTag
+    have hr : (bits ++ [true] ++ List.replicate (7 - bits.length % 8) false).reverse =
+        List.replicate (7 - bits.length % 8) false ++ true :: bits.reverse := by
+      simp [List.reverse_append]
+    rw [hr, stripTagRev_replicate _ 7 _ (by omega)]
+    simp
+
+/-! ### slices of concatenations -/
+
+theorem pySlice_mid {α : Type} (pre seg post : List α) (a b : Nat) (ha : a = pre.length) (hb : b = pre.length + seg.length) :
+    pySlice (pre ++ seg ++ post) a b = seg := by
+  subst ha; subst hb
+  unfold pySlice
+  rw [List.append_assoc, List.take_append, List.take_of_length_le (by omega)]
+  simp
+
+theorem flatMap_length_uniform {α β : Type} (f : α → List β) (w : Nat) (h : ∀ x, (f x).length = w) :
+    ∀ xs : List α, (xs.flatMap f).length = xs.length * w := by
+  intro xs; induction xs with
+  | nil => simp
+  | cons x xs ih => simp only [List.flatMap_cons, List.length_append, h, ih, List.length_cons]; rw [Nat.add_mul]; omega
+
+theorem uintsAt_flatMap (size : Nat) (xs : List Nat) (hx : ∀ x ∈ xs, x < 256 ^ size) (pre post : Bytes) (a : Nat)
+    (ha : a = pre.length) :
+    uintsAt (pre ++ xs.flatMap (natToBE size) ++ post) a size xs.length = xs := by
+  subst ha
+  unfold uintsAt
+  apply List.ext_getElem
+  · simp
+  · intro t h1 h2
+    simp only [List.getElem_map, List.getElem_range]
+    have ht : t < xs.length := by simpa using h1
+    have hsplit : xs = xs.take t ++ xs[t] :: xs.drop (t + 1) := by
+      rw [List.getElem_cons_drop ht, List.take_append_drop]
+    have hfl : xs.flatMap (natToBE size) =
+        (xs.take t).flatMap (natToBE size) ++ natToBE size xs[t] ++ (xs.drop (t + 1)).flatMap (natToBE size) := by
+      calc xs.flatMap (natToBE size) = (xs.take t ++ xs[t] :: xs.drop (t + 1)).flatMap (natToBE size) := by rw [← hsplit]
+        _ = _ := by rw [List.flatMap_append, List.flatMap_cons, List.append_assoc]
+    have hlen : ((xs.take t).flatMap (natToBE size)).length = t * size := by
+      rw [flatMap_length_uniform _ size (natToBE_length size), List.length_take, Nat.min_eq_left (by omega)]
+    unfold uintAt
+    rw [hfl]
+    have : pre ++ ((xs.take t).flatMap (natToBE size) ++ natToBE size xs[t] ++ (xs.drop (t + 1)).flatMap (natToBE size)) ++ post
+        = (pre ++ (xs.take t).flatMap (natToBE size)) ++ natToBE size xs[t] ++ ((xs.drop (t + 1)).flatMap (natToBE size) ++ post) := by
+      simp [List.append_assoc]
+    rw [this, pySlice_mid _ _ _ _ _ (by simp [hlen]) (by simp [hlen, natToBE_length])]
+    exact natOfBE_natToBE _ _ (hx _ (List.getElem_mem ht))
+
+/-! ### one cell record -/
+
+/-- `deserialize_cell` on a record laid out as d1 d2 | hash block | data | reference indices | anything. -/
+theorem deserializeCell_layout (d1 d2 size : Nat) (HB DB RB rest : Bytes)
+    (hHB : HB.length = if (d1 / 16 % 2 == 1) = true then (Model.popcount (d1 / 32) + 1) * 34 else 0)
+    (hDB : DB.length = d2 / 2 + d2 % 2) (hRB : RB.length = size * (d1 % 8)) (h7 : d1 % 8 ≠ 7) :
+    deserializeCell (d1 :: d2 :: (HB ++ DB ++ RB ++ rest)) size =
+      (let bits0 := bytesToBits DB
+       let bits := if (d2 % 2 == 1 && !bits0.isEmpty) = true then stripTag bits0 else bits0
+       (if (d1 / 8 % 2 == 1) = true then (if bits.length < 8 then none else some (signed8 bits)) else some (-1)).bind fun ty =>
+         some ({ bits := bits, refs := uintsAt (d1 :: d2 :: (HB ++ DB ++ RB ++ rest)) (2 + HB.length + DB.length) size (d1 % 8),
+                 type := ty }, 2 + HB.length + DB.length + RB.length)) := by
+  have hi : (2 + if (d1 / 16 % 2 == 1) = true then
+      (if (d1 / 16 % 2 == 1) = true then (Model.popcount (d1 / 32) + 1) * 32 else 0) +
+        (if ((if (d1 / 16 % 2 == 1) = true then (Model.popcount (d1 / 32) + 1) * 32 else 0) != 0) = true
+          then (Model.popcount (d1 / 32) + 1) * 2 else 0) else 0) = 2 + HB.length := by
+    rw [hHB]; split <;> simp <;> omega
+  have hlen : ¬ (d1 :: d2 :: (HB ++ DB ++ RB ++ rest)).length < 2 +
+      ((if (d1 / 16 % 2 == 1) = true then (Model.popcount (d1 / 32) + 1) * 32 else 0) +
+        (if ((if (d1 / 16 % 2 == 1) = true then (Model.popcount (d1 / 32) + 1) * 32 else 0) != 0) = true
+          then (Model.popcount (d1 / 32) + 1) * 2 else 0) + (d2 / 2 + d2 % 2) + size * (d1 % 8)) := by
+    simp only [List.length_cons, List.length_append, hHB, hDB, hRB]
+    split <;> simp <;> omega
+  have hslice : pySlice (d1 :: d2 :: (HB ++ DB ++ RB ++ rest)) (2 + HB.length) (2 + HB.length + (d2 / 2 + d2 % 2)) = DB := by
+    have : d1 :: d2 :: (HB ++ DB ++ RB ++ rest) = (d1 :: d2 :: HB) ++ DB ++ (RB ++ rest) := by simp [List.append_assoc]
+    rw [this]
+    apply pySlice_mid <;> simp <;> omega
+  have h7' : (d1 % 8 == 7 && d1 / 16 % 2 == 1) = false := by simp [h7]
+  unfold deserializeCell
+  simp only [List.getElem?_cons_zero, List.getElem?_cons_succ, Option.bind_some, h7', Bool.false_eq_true, if_false,
+    hlen, hi, hslice]
+  rw [hDB, hRB, Nat.mul_comm size]
+
+theorem flatten_length_uniform {β : Type} (w : Nat) : ∀ (xs : List (List β)), (∀ x ∈ xs, x.length = w) →
+    xs.flatten.length = xs.length * w := by
+  intro xs; induction xs with
+  | nil => intro _; simp
+  | cons x xs ih =>
+    intro h
+    simp only [List.flatten_cons, List.length_append, List.length_cons]
+    rw [h x List.mem_cons_self, ih (fun y hy => h y (List.mem_cons_of_mem _ hy)), Nat.add_mul]; omega
+
+theorem signed8_kind (bits : Bits) (kind : Int) (h1 : -128 ≤ kind) (h2 : kind < 128)
+    (h : natOfBits (bits.take 8) = (kind % 256).toNat) : signed8 bits = kind := by
+  unfold signed8
+  simp only [h]
+  split <;> omega
+
+/-- what the per-cell part of `Valid` gives for one cell. -/
+structure RecOK (size : Nat) (c : SCell) : Prop where
+  bits : c.bits.length ≤ 1023
+  refs : c.refs.length ≤ 4
+  refsFit : ∀ r ∈ c.refs, r < 256 ^ size
+  exotic : c.kind ≠ -1 → 8 ≤ c.bits.length ∧ -128 ≤ c.kind ∧ c.kind < 128 ∧ natOfBits (c.bits.take 8) = (c.kind % 256).toNat
+  mask : c.mask < 8
+  hashes : c.hashes.length = Spec.popcount c.mask + 1
+  hashes32 : ∀ h ∈ c.hashes, h.length = 32 ∧ Bytes.WF h
+  depths : c.depths.length = Spec.popcount c.mask + 1
+
+theorem encodeCell_roundtrip (size : Nat) (c : SCell) (store : Bool) (rest : Bytes) (ok : RecOK size c) :
+    deserializeCell (encodeCell size c store ++ rest) size = some (raw c, (encodeCell size c store).length) := by
+  have hb := ok.bits
+  have hr := ok.refs
+  have hm := ok.mask
+  have hHBlen : (hashBlock c).length = (Spec.popcount c.mask + 1) * 34 := by
+    unfold hashBlock
+    rw [List.length_append, flatten_length_uniform 32 _ (fun x hx => (ok.hashes32 x hx).1),
+      flatMap_length_uniform _ 2 (natToBE_length 2), ok.hashes, ok.depths]; omega
+  have hdata := dataBytes_length c.bits
+  have hRB : (c.refs.flatMap (natToBE size)).length = c.refs.length * size :=
+    flatMap_length_uniform _ size (natToBE_length size) _
+  -- the descriptor bytes decode
+  obtain ⟨x, hx, hx01⟩ : ∃ x : Nat, (if c.kind = -1 then 0 else 1) = x ∧ ((x = 0 ∧ c.kind = -1) ∨ (x = 1 ∧ c.kind ≠ -1)) := by
+    by_cases hk : c.kind = -1
+    · exact ⟨0, by rw [if_pos hk], Or.inl ⟨rfl, hk⟩⟩
+    · exact ⟨1, by rw [if_neg hk], Or.inr ⟨rfl, hk⟩⟩
+  obtain ⟨y, hy, hy01⟩ : ∃ y : Nat, (if store = true then 1 else 0) = y ∧ ((y = 0 ∧ store = false) ∨ (y = 1 ∧ store = true)) := by
+    cases store
+    · exact ⟨0, by simp, Or.inl ⟨rfl, rfl⟩⟩
+    · exact ⟨1, by simp, Or.inr ⟨rfl, rfl⟩⟩
+  generalize hd1 : c.refs.length + 8 * (if c.kind = -1 then 0 else 1) + 16 * (if store = true then 1 else 0) + 32 * c.mask = d1
+  have hd1' : d1 = c.refs.length + 8 * x + 16 * y + 32 * c.mask := by rw [← hd1, hx, hy]
+  have e1 : d1 / 32 = c.mask := by omega
+  have e2 : d1 % 8 = c.refs.length := by omega
+  have e3 : (d1 / 16 % 2 == 1) = store := by
+    rcases hy01 with ⟨h0, hs⟩ | ⟨h0, hs⟩ <;> rw [hs] <;> simp <;> omega
+  have e4 : (d1 / 8 % 2 == 1) = (c.kind != -1) := by
+    rcases hx01 with ⟨h0, hk⟩ | ⟨h0, hk⟩
+    · have h8 : d1 / 8 % 2 = 0 := by omega
+      rw [h8, hk]; rfl
+    · have h8 : d1 / 8 % 2 = 1 := by omega
+      have hb : (c.kind != -1) = true := by simp [hk]
+      rw [h8, hb]; rfl
+  have f1 : Spec.d2 c.bits.length / 2 + Spec.d2 c.bits.length % 2 = (c.bits.length + 7) / 8 := by unfold Spec.d2; omega
+  have hform : encodeCell size c store ++ rest =
+      d1 :: Spec.d2 c.bits.length :: ((if store then hashBlock c else []) ++ Spec.dataBytes c.bits ++ c.refs.flatMap (natToBE size) ++ rest) := by
+    unfold encodeCell; rw [hd1]; simp [List.append_assoc]
+  rw [hform, deserializeCell_layout d1 _ size _ _ _ rest ?_ (by rw [hdata, f1]) (by rw [hRB, e2, Nat.mul_comm]) (by omega)]
+  · have hdr := data_roundtrip c.bits
+    simp only at hdr
+    simp only [hdr, e4, e2]
+    have hrefs : uintsAt (d1 :: Spec.d2 c.bits.length :: ((if store then hashBlock c else []) ++ Spec.dataBytes c.bits ++ c.refs.flatMap (natToBE size) ++ rest))
+        (2 + (if store then hashBlock c else []).length + (Spec.dataBytes c.bits).length) size c.refs.length = c.refs := by
+      have : d1 :: Spec.d2 c.bits.length :: ((if store then hashBlock c else []) ++ Spec.dataBytes c.bits ++ c.refs.flatMap (natToBE size) ++ rest)
+          = (d1 :: Spec.d2 c.bits.length :: ((if store then hashBlock c else []) ++ Spec.dataBytes c.bits)) ++ c.refs.flatMap (natToBE size) ++ rest := by
+        simp [List.append_assoc]
+      rw [this]
+      apply uintsAt_flatMap _ _ ok.refsFit
+      simp; omega
+    rw [hrefs]
+    have hlen : (encodeCell size c store).length =
+        2 + (if store then hashBlock c else []).length + (Spec.dataBytes c.bits).length + (c.refs.flatMap (natToBE size)).length := by
+      unfold encodeCell; simp; omega
+    rw [hlen]
+    by_cases hk : c.kind = -1
+    · simp [hk, raw]
+    · obtain ⟨k1, k2, k3, k4⟩ := ok.exotic hk
+      have : ¬ c.bits.length < 8 := by omega
+      simp [hk, this, signed8_kind c.bits c.kind k2 k3 k4, raw]
+  · rw [e3, e1, TonVerif.Proofs.CellSpec.popcount_eq]
+    cases store <;> simp [hHBlen]
+
+/-- first loop: the concatenated records of a listing are read back one by one. -/
+theorem readCells_records (size : Nat) (store : List Bool) : ∀ (cs : List SCell) (base : Nat) (rest : Bytes),
+    (∀ c ∈ cs, RecOK size c) →
+    readCells cs.length ((records size store cs base).flatten ++ rest) size = some (cs.map raw) := by
+  intro cs
+  induction cs with
+  | nil => intro base rest _; simp [readCells]
+  | cons c cs ih =>
+    intro base rest h
+    simp only [records, List.flatten_cons, List.length_cons, readCells, List.append_assoc]
+    rw [encodeCell_roundtrip size c _ _ (h c List.mem_cons_self)]
+    simp only [Option.bind_some, List.drop_left]
+    rw [ih (base + 1) rest (fun x hx => h x (List.mem_cons_of_mem _ hx))]
+    simp
 
 end TonVerif.Proofs.BocParse
